@@ -135,6 +135,11 @@ theorem mergeToSequence_perm {a a' b b' : KVs} (ha : a'.Perm a) (hb : b'.Perm b)
     mergeToSequence (.map a') (.map b') = mergeToSequence (.map a) (.map b) := by
   simp only [mergeToSequence, intoSeq_map_perm ha, intoSeq_map_perm hb]
 
+/-- `override.mergeExtraHosts` (extra_hosts merged across files) -/
+theorem mergeExtraHosts_perm {a a' b b' : KVs} (ha : a'.Perm a) (hb : b'.Perm b) :
+    mergeExtraHosts (.map a') (.map b') = mergeExtraHosts (.map a) (.map b) := by
+  simp only [mergeExtraHosts, intoSeq_map_perm ha, intoSeq_map_perm hb]
+
 /-- `types.SSHConfig.DecodeMapstructure` (after the `fix:` commit): the key slice does not depend on the order -/
 theorem sshDecode_perm {kvs kvs' : KVs} (hn : (akeys kvs).Nodup) (hp : kvs'.Perm kvs) :
     sshDecode (.map kvs') = sshDecode (.map kvs) := sshDecode_perm' hn hp
@@ -237,6 +242,36 @@ theorem newGraph_no_mutation_partial (s : Svc) (st : LoopSt) (hself : s.name ∉
 theorem graphLoop_ok_perm (en dis : List String) {svcs svcs' : List Svc} (hp : svcs'.Perm svcs) :
     (graphLoop en dis svcs').toBool = (graphLoop en dis svcs).toBool := by
   rw [graphLoop_toBool, graphLoop_toBool, hp.all_eq]
+
+/-- **`graph.CheckCycle` is order independent when no service depends on itself**: for services with distinct names,
+whether `newGraph` + the cycle search accept the project is the same for every iteration order of the services map
+(`SvcsPerm` = a permutation of the services composed with a permutation of every `depends_on` map).  The hypothesis
+`NoSelf` cannot be dropped: `Neg.newGraph_order_dependent`. -/
+theorem newGraph_perm_partial {svcs svcs' : List Svc} (dis : List String) (hself : NoSelf svcs)
+    (hn : (svcs.map (·.name)).Nodup) (hp : SvcsPerm svcs' svcs) :
+    (newGraph svcs' dis).toBool = (newGraph svcs dis).toBool := newGraph_toBool_perm dis hself hn hp
+
+/-- … and an accepted project is returned unchanged (no mutation) -/
+theorem newGraph_ok_unchanged_partial (svcs : List Svc) (dis : List String) (hself : NoSelf svcs) (ss : List Svc)
+    (h : newGraph svcs dis = .ok ss) : ss = svcs := by
+  simp only [newGraph] at h
+  cases hg : graphLoop (svcs.map (·.name)) dis svcs with
+  | error e => simp [hg] at h
+  | ok p =>
+    obtain ⟨ss', adj⟩ := p
+    simp only [hg] at h
+    split at h
+    · cases h
+    · cases h; exact (graphLoop_ok_shape _ dis svcs hself ss adj hg).1
+
+/-- non-vacuity: two iteration orders of a three-service project without self dependencies -/
+example : NoSelf [⟨"a", [("b", true), ("off", false)]⟩, ⟨"b", []⟩] ∧
+    SvcsPerm [⟨"b", []⟩, ⟨"a", [("off", false), ("b", true)]⟩] [⟨"a", [("b", true), ("off", false)]⟩, ⟨"b", []⟩] := by
+  refine ⟨?_, [⟨"a", [("off", false), ("b", true)]⟩, ⟨"b", []⟩], List.Perm.swap _ _ _, ?_⟩
+  · intro s hs
+    simp only [List.mem_cons, List.not_mem_nil, or_false] at hs
+    rcases hs with rfl | rfl <;> decide
+  · exact .cons rfl (List.Perm.swap _ _ _) (.cons rfl (List.Perm.refl _) .nil)
 
 /-- non-vacuity of `depLoop_perm_partial`: a loop with an optional missing dependency and no self dependency -/
 example : "a" ∉ akeys ([("b", true), ("off", false)] : AL Bool) ∧
